@@ -28,6 +28,8 @@ func init() {
 			"(client-targets-owner) every single-key operation of the cluster client and of the pipeline picks its connection through smartPick / the key's partition; " +
 			"(replica-stores-verbatim) shared with C04: a backup never drops or reorders an entry shipped by the owner.",
 		Run: func(r *core.Run) {
+			c07RequestStateNotShared(r)
+			pipelineIndex(r)
 			c07LockSections(r)
 			c07ClientTargetsOwner(r)
 			c04ReplicaVerbatim(r)
